@@ -53,7 +53,8 @@ def cpu_segment(b, cur, feats, live):
     rng = b.rng
     xt = b.t(cur)
     kinds = ["custom", "custom2", "float_detour", "floor_div", "cast", "neg", "reverse", "int32_detour", "rank5", "batch2",
-             "dyn_conv", "dyn_fc", "custom_const_in", "const_only", "shape_use", "pool_global_cpu", "topk_like", "opt_missing"]
+             "dyn_conv", "dyn_fc", "custom_const_in", "const_only", "shape_use", "pool_global_cpu", "topk_like", "opt_missing",
+             "const_conv_cpu", "const_conv_cpu", "float_fc_const", "tconv_cpu"]
     kind = rng.choice(kinds)
     b.net.desc.append("cpu:" + kind)
     if not _q(b, cur):
@@ -174,6 +175,62 @@ def cpu_segment(b, cur, feats, live):
         b.net.ops.append(Op("FULLY_CONNECTED", ins, [y], ("FullyConnectedOptions", dict(
             FusedActivationFunction=rng.choice([0, 1]), KeepNumDims=rng.random() < 0.3)), version=rng.choice([1, 2, 4, 9])))
         feats.add("dynamic_weights_fc")
+        return y
+    if kind == "const_conv_cpu" and _rank4(b, cur) and xt.shape[3] <= 16:
+        # convolution with *constant* weights that must stay on the CPU (stride 4, or asymmetric int8 weights): the reader
+        # swaps weights and bias for reshaped clones, the writer has to put the original tensors back
+        n, h, w, c = xt.shape
+        oc = rng.choice([2, 4, 8])
+        why = rng.choice(["stride4", "asym_weights", "dw_stride4"]) if xt.dtype != "uint8" else rng.choice(["stride4", "dw_stride4"])
+        wd = "int8" if xt.dtype != "uint8" else "uint8"
+        s = 4 if "stride4" in why else 1
+        if why == "dw_stride4":
+            wt = b.const([1, 1, 1, c], wd, b.rand_weights([1, 1, 1, c], wd), [0.02], [0 if wd == "int8" else 128], 3, b.fresh("w"))
+            oc = c
+        else:
+            wz = [0 if wd == "int8" else 128] if why != "asym_weights" else [rng.choice([-7, 3, 100])]
+            wt = b.const([oc, 1, 1, c], wd, b.rand_weights([oc, 1, 1, c], wd), [0.02], wz, 0, b.fresh("w"))
+        bt = b.const([oc], "int32" if xt.dtype != "int16" else "int64", np.arange(oc) - 1, [0.001], [0], 0, b.fresh("b"))
+        y = b.fm([n, -(-h // s), -(-w // s), oc], xt.dtype)
+        if why == "dw_stride4":
+            b.net.ops.append(Op("DEPTHWISE_CONV_2D", [cur, wt, bt], [y], ("DepthwiseConv2DOptions", dict(
+                Padding=0, StrideW=s, StrideH=s, DepthMultiplier=1, DilationWFactor=1, DilationHFactor=1, FusedActivationFunction=rng.choice([0, 1])))))
+        else:
+            b.net.ops.append(Op("CONV_2D", [cur, wt, bt] if rng.random() < 0.8 else [cur, wt], [y], ("Conv2DOptions", dict(
+                Padding=0, StrideW=s, StrideH=s, DilationWFactor=1, DilationHFactor=1, FusedActivationFunction=rng.choice([0, 1, 3])))))
+        feats.add("const_weights_conv_on_cpu_" + why)
+        return y
+    if kind == "float_fc_const":
+        ic = xt.shape[-1]
+        nrow = int(np.prod(xt.shape[:-1]))
+        oc = rng.choice([3, 8])
+        f = b.net.add(T(b.fresh("t"), xt.shape, "float32"))
+        b.net.ops.append(Op("DEQUANTIZE", [cur], [f], ("DequantizeOptions", {})))
+        f2 = b.net.add(T(b.fresh("t"), [nrow, ic], "float32"))
+        shp = b.const([2], "int32", [nrow, ic], name=b.fresh("shape"))
+        b.net.ops.append(Op("RESHAPE", [f, shp], [f2], ("ReshapeOptions", dict(NewShape=[nrow, ic]))))
+        wt = b.const([oc, ic], "float32", np.linspace(-1, 1, oc * ic), name=b.fresh("w"))
+        bt = b.const([oc], "float32", np.linspace(0, 1, oc), name=b.fresh("b"))
+        g = b.net.add(T(b.fresh("t"), [nrow, oc], "float32"))
+        b.net.ops.append(Op("FULLY_CONNECTED", [f2, wt, bt], [g], ("FullyConnectedOptions", dict(FusedActivationFunction=rng.choice([0, 1])))))
+        o = b.fm([nrow, oc], xt.dtype)
+        b.net.ops.append(Op("QUANTIZE", [g], [o], ("QuantizeOptions", {})))
+        feats.add("const_weights_fc_on_cpu_float")
+        feats.add("float_detour")
+        return o
+    if kind == "tconv_cpu" and _rank4(b, cur) and xt.shape[1] * xt.shape[2] <= 64 and xt.shape[3] <= 16:
+        # TRANSPOSE_CONV kept off the NPU by stride 3, with a fused activation
+        n, h, w, c = xt.shape
+        oc = rng.choice([2, 4])
+        wd = "int8" if xt.dtype != "uint8" else "uint8"
+        wt = b.const([oc, 3, 3, c], wd, b.rand_weights([oc, 3, 3, c], wd), [0.02], [0 if wd == "int8" else 128], 0, b.fresh("w"))
+        os_ = b.const([4], "int32", [n, h * 3, w * 3, oc], name=b.fresh("oshape"))
+        bt = b.const([oc], "int32" if xt.dtype != "int16" else "int64", np.arange(oc), [0.001], [0], 0, b.fresh("b"))
+        y = b.fm([n, h * 3, w * 3, oc], xt.dtype)
+        act = rng.choice([0, 1, 3])
+        b.net.ops.append(Op("TRANSPOSE_CONV", [os_, wt, cur, bt], [y], ("TransposeConvOptions", dict(
+            Padding=0, StrideW=3, StrideH=3, FusedActivationFunction=act)), version=rng.choice([1, 3])))
+        feats.add("transpose_conv_on_cpu" + ("_fused_activation" if act else ""))
         return y
     if kind == "custom_const_in":
         c = b.const(xt.shape[-1:], xt.dtype, np.arange(xt.shape[-1]) % 100, xt.scales, xt.zps, 0)
